@@ -543,6 +543,7 @@ class Engine:
         if is_for:
             go = st.decide(k < hi, f"{tag}:next")
             if go:
+                st.instantiate_at(k)          # quantified facts about the elements, at the element of this iteration
                 it.assign(node.target, st.simp(z3.Select(arr, k)), env)
         else:
             go = it.test(it.eval(node.test, env), f"{tag}:guard")
